@@ -179,6 +179,40 @@ class SetK(Kind):
 SetIntK = SetK()
 
 
+class LabV:
+    """integer label array indexed by row (one quantum-number component; the operations are componentwise)"""
+
+    def __init__(self, arr):
+        self.arr = arr
+
+    def at(self, r):
+        return z3.Select(self.arr, to_z3(r, IntK))
+
+
+class LabKind(Kind):
+    name = "lab"
+
+    def sort(self):
+        return z3.ArraySort(z3.IntSort(), z3.IntSort())
+
+    def wrap(self, e):
+        return LabV(e)
+
+    def unwrap(self, v):
+        if isinstance(v, LabV):
+            return v.arr
+        raise VCError(f"cannot store {v!r} as a label array")
+
+    def fresh(self, prefix):
+        return LabV(fresh(prefix, self.sort()))
+
+    def __repr__(self):
+        return self.name
+
+
+LabK = LabKind()
+
+
 class SeqV:
     """immutable snapshot of a list / 1-D array: length + z3 array of element sort"""
 
@@ -323,6 +357,8 @@ def kind_of(v):
         return ListK(v.elem)
     if isinstance(v, SetV):
         return SetIntK
+    if isinstance(v, LabV):
+        return LabK
     raise VCError(f"no kind for {v!r}")
 
 
@@ -415,6 +451,7 @@ class Contract:
         self.inline = inline
         self.consts = set(consts)
         self.defaults = defaults or {}
+        self.ufuncs = {}
 
 
 def parse_kind(s, records=None):
@@ -431,6 +468,8 @@ def parse_kind(s, records=None):
         return OptIntK
     if s == "set[int]":
         return SetIntK
+    if s == "lab":
+        return LabK
     if s.startswith("list[") and s.endswith("]"):
         return ListK(parse_kind(s[5:-1], records))
     if s.startswith("rec:"):
@@ -442,7 +481,7 @@ def parse_kind(s, records=None):
 
 def fresh_value(st, kind, prefix):
     """allocate a fresh symbolic value of `kind`; mutable kinds live on the heap"""
-    if isinstance(kind, ScalarK) or isinstance(kind, OptK):
+    if isinstance(kind, ScalarK) or isinstance(kind, OptK) or isinstance(kind, LabKind):
         return kind.fresh(prefix)
     if isinstance(kind, ListK):
         v = kind.fresh(prefix)
@@ -524,6 +563,7 @@ class Executor:
         self._assign_loop_keys()
         self.n_paths = 0
         self.feas_cache = {}
+        self.inline_nodes = {}     # method name -> FunctionDef inlined at call sites (contract.inline)
         self.bound = None          # finite-universe mode for refutation (see forall_idx)
         self.restrictions = []     # search restrictions added in finite mode (lengths <= bound, set elements in [0, bound))
 
@@ -911,6 +951,8 @@ class Executor:
                     nf[f] = kind_of(x).fresh(f"{prefix}.{f}")
                 elif isinstance(x, OptV) or x is None:
                     nf[f] = OptIntK.fresh(f"{prefix}.{f}")
+                elif isinstance(x, LabV):
+                    nf[f] = LabK.fresh(f"{prefix}.{f}")
                 else:
                     nf[f] = x
             st.heap[ref.addr] = RecV(nf, obj.cls)
@@ -1098,10 +1140,65 @@ class Executor:
 
     # ---- expressions
     def eval_fork(self, e, st):
-        """evaluate an expression; returns [(state, value)] (forks for short-circuit side effects are not needed:
-        expressions with side effects are method calls handled in place)"""
+        """evaluate an expression; returns [(state, value)].  A statement-level call of an inlined function (nested def or
+        a method listed in contract.inline) may have several exits: one (state, value) per exit."""
+        if isinstance(e, ast.Call):
+            fv, recv = self.inlinable(e, st)
+            if fv is not None:
+                return self.inline_call_multi(fv, e, st, recv)
         v = self.eval(e, st)
         return [(st, v)]
+
+    def inlinable(self, e, st):
+        f = e.func
+        if isinstance(f, ast.Name) and isinstance(st.env.get(f.id), FuncV):
+            return st.env[f.id], None
+        if isinstance(f, ast.Attribute) and f.attr in self.inline_nodes:
+            recv = self.eval(f.value, st)
+            if isinstance(st.deref(recv), RecV):
+                return FuncV(self.inline_nodes[f.attr], None, f.attr), recv
+        return None, None
+
+    def bind_args(self, node, e, st, recv):
+        params = [a.arg for a in node.args.args]
+        vals = {}
+        pos = list(params)
+        if recv is not None:
+            vals[pos[0]] = recv
+            pos = pos[1:]
+        for pname, a in zip(pos, e.args):
+            vals[pname] = self.eval(a, st)
+        for kw in e.keywords:
+            vals[kw.arg] = self.eval(kw.value, st)
+        dfl = node.args.defaults
+        for a, d in zip(node.args.args[len(node.args.args) - len(dfl):], dfl):
+            if a.arg not in vals:
+                vals[a.arg] = self.eval(d, st)
+        missing = [p_ for p_ in params if p_ not in vals]
+        if missing:
+            raise VCError(f"inlined call of {node.name}: missing arguments {missing}")
+        return vals
+
+    def inline_call_multi(self, fv, e, st, recv):
+        node = fv.node
+        vals = self.bind_args(node, e, st, recv)
+        saved = {p_: st.env.get(p_, _MISSING) for p_ in vals}
+        st.env.update(vals)
+        outs = self.exec_block(node.body, st)
+        res = []
+        for o in outs:
+            if o.kind in ("return", "normal"):
+                for p_, v in saved.items():
+                    if v is _MISSING:
+                        o.st.env.pop(p_, None)
+                    else:
+                        o.st.env[p_] = v
+                res.append((o.st, o.val if o.kind == "return" else None))
+            elif o.kind == "raise":
+                pass
+            else:
+                raise VCError(f"{o.kind} escaping inlined function {node.name}")
+        return res
 
     def eval(self, e, st):
         m = getattr(self, "e_" + type(e).__name__, None)
@@ -1175,11 +1272,27 @@ class Executor:
         raise VCError("unary op")
 
     def e_BoolOp(self, e, st):
-        vals = [self.eval(x, st) for x in e.values]
+        """short-circuit: obligations raised while evaluating a later operand are emitted under the guard of the earlier ones"""
+        is_and = isinstance(e.op, ast.And)
+        vals = []
+        cur = st
+        for x in e.values:
+            v = self.eval(x, cur)
+            vals.append(v)
+            if isinstance(v, bool):
+                if v != is_and:       # False in `and` / True in `or`: the rest is not evaluated
+                    break
+                continue
+            g = to_bool(v)
+            nxt = cur.fork()
+            nxt.pc = list(cur.pc)
+            nxt.in_spec = getattr(cur, "in_spec", False)
+            nxt.pc.append(g if is_and else z3.Not(g))
+            cur = nxt
         if all(isinstance(v, bool) for v in vals):
-            return all(vals) if isinstance(e.op, ast.And) else any(vals)
+            return all(vals) if is_and else any(vals)
         bs = [to_bool(v) for v in vals]
-        return z3.And(*bs) if isinstance(e.op, ast.And) else z3.Or(*bs)
+        return z3.And(*bs) if is_and else z3.Or(*bs)
 
     def e_IfExp(self, e, st):
         c = self.eval(e.test, st)
@@ -1211,6 +1324,13 @@ class Executor:
                 return a // b
             if isinstance(op, ast.Mod) and b > 0:
                 return a % b
+        if isinstance(a, LabV) or isinstance(b, LabV):
+            if not isinstance(op, (ast.Add, ast.Sub)):
+                raise VCError("label arrays support + and - only")
+            r = z3.Int(f"r!lab{next(_fresh_counter)}")
+            x = a.at(r) if isinstance(a, LabV) else to_z3(a, IntK)
+            y = b.at(r) if isinstance(b, LabV) else to_z3(b, IntK)
+            return LabV(z3.Lambda([r], x + y if isinstance(op, ast.Add) else x - y))
         # list repetition [x] * n
         if isinstance(op, ast.Mult) and isinstance(st.deref(a), SeqV) and not isinstance(st.deref(b), SeqV):
             seq = st.deref(a)
@@ -1422,6 +1542,8 @@ class Executor:
             if isinstance(idx, int):
                 return base.items[idx]
             raise VCError("symbolic tuple index")
+        if isinstance(base, LabV):
+            return base.at(idx)
         raise VCError(f"subscript of {type(base).__name__} at line {getattr(e, 'lineno', '?')}")
 
     def e_Attribute(self, e, st):
@@ -1553,6 +1675,11 @@ class Executor:
             if name in st.env and isinstance(st.env[name], LambdaV):
                 lam = st.env[name]
                 return self.apply_lambda(lam, [self.eval(a, st) for a in e.args], st)
+            if name in self.c.ufuncs:
+                doms, rng = self.c.ufuncs[name]
+                sorts = {"int": z3.IntSort(), "bool": z3.BoolSort(), "real": z3.RealSort()}
+                f_ = z3.Function(name, *[sorts[d] for d in doms], sorts[rng])
+                return f_(*[to_z3(self.eval(a, st), IntK if d == "int" else None) for a, d in zip(e.args, doms)])
             if name in self.contracts:
                 return self.call_contract(self.contracts[name], e, st, recv=None)
             b = getattr(self, "b_" + name, None)
@@ -1562,6 +1689,13 @@ class Executor:
         if isinstance(f, ast.Attribute):
             recv = self.eval(f.value, st)
             d = st.deref(recv)
+            if isinstance(d, RecV) and f.attr in self.inline_nodes:
+                res = self.inline_call_multi(FuncV(self.inline_nodes[f.attr], None, f.attr), e, st, recv)
+                if len(res) != 1:
+                    raise VCError(f"inlined method {f.attr} has {len(res)} exits inside an expression (only statement-level calls may fork)")
+                st2, val = res[0]
+                st.env, st.heap, st.pc, st.ghost, st.trace = st2.env, st2.heap, st2.pc, st2.ghost, st2.trace
+                return val
             if isinstance(d, RecV) and f.attr in self.contracts:
                 return self.call_contract(self.contracts[f.attr], e, st, recv=recv)
             if isinstance(d, ConstV) and isinstance(d.obj, str):
@@ -1682,7 +1816,7 @@ class Executor:
         raise VCError("len of unsupported value")
 
     def b_range(self, e, st):
-        a = [self.eval(x, st) for x in e.args]
+        a = [self.as_int(self.eval(x, st), st, e) for x in e.args]
         if len(a) == 1:
             return RangeV(0, a[0], 1)
         if len(a) == 2:
